@@ -44,11 +44,14 @@ int main(int argc, char** argv)
         const std::string id = scn.at(0).t.at(1);
         g_cur = id;
         std::cout << "S " << id << "\n";
-        std::cout << "C 1";
-        for (auto& tk : scn.at(1).t)
-            std::cout << ' ' << tk;
-        std::cout << "\n";
         std::cout.flush();
+        // the scenario's transcript is buffered and written in one piece at the end, so that
+        // sanitizer reports (written straight to the descriptor) never land inside a line
+        std::ostringstream out;
+        out << "C 1";
+        for (auto& tk : scn.at(1).t)
+            out << ' ' << tk;
+        out << "\n";
         alarm(watchdog);
         try
         {
@@ -57,28 +60,29 @@ int main(int argc, char** argv)
             {
                 const std::string& c = g.at(6);
                 if (c == "rook")
-                    fsh::run_raster_rook(scn, std::cout);
+                    fsh::run_raster_rook(scn, out);
                 else if (c == "queen")
-                    fsh::run_raster_queen(scn, std::cout);
+                    fsh::run_raster_queen(scn, out);
                 else
-                    fsh::run_raster_bishop(scn, std::cout);
+                    fsh::run_raster_bishop(scn, out);
             }
             else if (g.at(1) == "profile")
-                fsh::run_profile(scn, std::cout);
+                fsh::run_profile(scn, out);
             else if (g.at(1) == "mesh")
-                fsh::run_mesh(scn, std::cout);
+                fsh::run_mesh(scn, out);
             else
                 throw std::logic_error("harness: bad grid kind");
         }
         catch (const std::logic_error& e)
         {
-            std::cout << "X " << e.what() << "\n";
+            out << "X " << e.what() << "\n";
         }
         catch (const std::exception& e)
         {
-            std::cout << "X uncaught " << fsh::errkind(e) << ' ' << e.what() << "\n";
+            out << "X uncaught " << fsh::errkind(e) << ' ' << e.what() << "\n";
         }
         alarm(0);
+        std::cout << out.str();
         std::cout << "E " << id << "\n";
         std::cout.flush();
         scn.clear();
